@@ -229,6 +229,13 @@ def run(ctx):
                 nt += 1
     # model VM / specification vs implementation on the same programs; model regex parser vs the implementation's tree
     report_core_disagreements(ctx, cases, dis)
+    # \s and \S on the other control and blank characters (vertical tab, form feed, the separators 0x1c..0x1f, NEL and no-break space as bytes): vore's whitespace is
+    # space, tab, newline, carriage return and nothing else - the reference here is the proved model (conventional engines differ among themselves on these)
+    ws_cases = [{"src": "find all @/%s/" % v, "texts": ["a\x0bb", "a\x0cb c", "\x0b\x0b", "a\x1c\x1d\x1e\x1fb", "a\x85b\xa0c", "a \x0b\tb", "\x0b", "ab\x0b\ncd", "a\x00b"]}
+                for v in ("\\s", "\\S+", "\\s+", "(\\S+)\\s(\\S+)", "[^\\s]+", "[\\s]", "a\\s*b", "\\S\\s?\\S", "[\\sa]+", ".\\s.")]
+    wres, wdis, wstats = corr_core.run_core(ws_cases, shards=4, spec=True)
+    report_core_disagreements(ctx, ws_cases, wdis, in_scope=lambda c, d: True, known=known_core)
+    ev += wstats.get("e2e_agree", 0)
     srcs = [c["src"] for c in cases]
     for i in range(0, len(srcs), 4000):
         front.compare_front(ctx, srcs[i:i + 4000], ["regex literal"] * len(srcs[i:i + 4000]), impl_prop=False)
